@@ -10,6 +10,7 @@ import (
 
 	"github.com/inbucket/inbucket/v3/pkg/config"
 	"github.com/inbucket/inbucket/v3/pkg/extension"
+	"github.com/inbucket/inbucket/v3/pkg/extension/event"
 	"github.com/inbucket/inbucket/v3/vsim/models"
 	"github.com/inbucket/inbucket/v3/vsim/simnet"
 	"github.com/inbucket/inbucket/v3/vsim/simrt"
@@ -26,6 +27,7 @@ type c05Txn struct {
 }
 
 type c05Case struct {
+	Hook  string            // "" | "allow" | "defer": a BeforeRcptToAccepted listener answering that for every recipient
 	Env   map[string]string // INBUCKET_* variables
 	Pol   models.Policy     // what the documentation says these variables mean
 	Net   simnet.Profile
@@ -43,7 +45,7 @@ func (k *c05Case) Describe() []string {
 	for _, e := range keys {
 		l = append(l, e+"="+k.Env[e])
 	}
-	l = append(l, profileString(k.Net)+" store="+k.Store.String())
+	l = append(l, profileString(k.Net)+" store="+k.Store.String()+" rcpt-hook="+k.Hook)
 	for i, t := range k.Txns {
 		l = append(l, fmt.Sprintf("txn%d MAIL<%s> RCPT%v end=%s token=%s", i, t.From, t.Rcpts, t.End, t.Token))
 	}
@@ -102,6 +104,7 @@ func genC05(w *simrt.Choices, tier string, avoid map[string]bool) Case {
 	k.Env["INBUCKET_SMTP_DOMAIN"] = "inbucket.sim"
 	k.Env["INBUCKET_SMTP_TIMEOUT"] = "120s"
 	k.Env["INBUCKET_MAILBOXNAMING"] = "local"
+	k.Hook = []string{"", "", "", "allow", "defer"}[w.Choose(5)]
 	tok := 0
 	for i, n := 0, 1+w.Choose(5); i < n; i++ {
 		tok++
@@ -153,6 +156,16 @@ func runC05(c *Ctx, cs Case) {
 	if err != nil {
 		panic(err)
 	}
+	switch k.Hook {
+	case "allow":
+		eh.Events.BeforeRcptToAccepted.AddListener("c05", func(event.SMTPSession) *event.SMTPResponse {
+			return &event.SMTPResponse{Action: event.ActionAllow}
+		})
+	case "defer":
+		eh.Events.BeforeRcptToAccepted.AddListener("c05", func(event.SMTPSession) *event.SMTPResponse {
+			return &event.SMTPResponse{Action: event.ActionDefer}
+		})
+	}
 	env := startSMTP(c, root, st, eh)
 	pol := &k.Pol
 	expect := map[string]int{} // "mailbox\x00token"
@@ -190,7 +203,9 @@ func runC05(c *Ctx, cs Case) {
 			var accepted []string
 			for _, rc := range tx.Rcpts {
 				_, dom, _ := models.SplitAddress(rc)
-				want := pol.AcceptRecipient(dom) && len(accepted) < pol.MaxRecipients
+				// an extension's "allow" overrides the domain policy, never the recipient limit
+				domainOK := pol.AcceptRecipient(dom) || k.Hook == "allow"
+				want := domainOK && len(accepted) < pol.MaxRecipients
 				rr := cl.cmd("RCPT TO:<" + rc + ">")
 				if rr.Err != nil {
 					c.Failf("no-reply", "RCPT: %v", rr.Err)
@@ -208,7 +223,7 @@ func runC05(c *Ctx, cs Case) {
 					case want:
 						c.Failf("recipient-refused-against-policy", "RCPT TO:<%s> answered %s; policy (defaultAccept=%v accept=%v reject=%v, %d of max %d accepted) says accept",
 							rc, rr, pol.DefaultAccept, pol.AcceptDomains, pol.RejectDomains, len(accepted), pol.MaxRecipients)
-					case !pol.AcceptRecipient(dom):
+					case !domainOK:
 						c.Failf("recipient-accepted-against-policy", "RCPT TO:<%s> answered %s; policy (defaultAccept=%v accept=%v reject=%v) says refuse",
 							rc, rr, pol.DefaultAccept, pol.AcceptDomains, pol.RejectDomains)
 					default:
@@ -317,7 +332,7 @@ func init() {
 		QuickRuns:         8000,
 		ThoroughRuns:      200000,
 		Rule: "per run the harness sets INBUCKET_SMTP_* in the process environment (default-accept/default-store switches, accept/reject/store/" +
-			"discard lists with mixed-case entries, reject-origin patterns with * and ?, MaxRecipients 1-4), calls the real config.Process(), " +
+			"discard lists with mixed-case entries, reject-origin patterns with * and ?, MaxRecipients 1-4; in two runs of five an extension listener that answers allow / defer to every RCPT), calls the real config.Process(), " +
 			"starts the real SMTP server on the simulated network and plays 1-5 transactions whose sender and recipient domains hit and just " +
 			"miss every list entry in lower, upper and mixed case. The documented rule (reference policy model with a recursive wildcard " +
 			"matcher) predicts the reply class (2xx / refusal) of every MAIL and RCPT, the recipient count never exceeds the limit, and after " +
